@@ -175,6 +175,11 @@ def generate(rng, tier: str, index: int) -> dict:
         if c[0] in APPENDABLE and rng.random() < 0.3:
             other = rng.choice([o for o in CELLS if o[0] in APPENDABLE and o[0] != c[0]])
             c.extend(other)
+    for c in cells:
+        # the same definition in the nested spelling `route <prefix> { next-hop ...; <statement>; }` (another walk through the parser,
+        # which keeps state between the statements of one route - and must drop it when the route is refused)
+        if c[0] in APPENDABLE and all(x in APPENDABLE for x in c[2::2]) and rng.random() < 0.25:
+            c.append('nested')
     return {'micro_seed': rng.randint(1, 1 << 48), 'knobs': knobs(rng), 'kinds': kinds_for(rng), 'cells': [list(c) for c in cells], 'nconf': rng.randint(0, 6), 'mode': rng.choice(['both', 'both', 'conf'])}
 
 
@@ -192,10 +197,15 @@ def grid(tier: str):
 
 def definition(cell, n: int):
     """-> (route text, validity, structured route or None)"""
+    nested = bool(cell) and cell[-1] == 'nested'
+    if nested:
+        cell = cell[:-1]
     name, i = cell[0], cell[1]
     tok, valid, over = FIELDS[name][i]
+    toks = [tok]
     if len(cell) > 2:
         tok2, valid2, over2 = FIELDS[cell[2]][cell[3]]
+        toks.append(tok2)
         tok = tok + ' ' + tok2
         valid = False if (valid is False or valid2 is False) else (None if (valid is None or valid2 is None) else True)
         if valid is True:
@@ -237,6 +247,8 @@ def definition(cell, n: int):
         text = f'route 10.77.{n}.0/24 next-hop 10.0.0.9 med {1000 + n} {tok}'.rstrip()
         if name in ('med',):
             text = f'route 10.77.{n}.0/24 next-hop 10.0.0.9 {tok}'
+        if nested:
+            text = f'route 10.77.{n}.0/24 {{ next-hop 10.0.0.9; med {1000 + n}; ' + ' '.join(t + ';' for t in toks if t) + ' }'
     r = None
     if over is not None:
         r = jclone(base)
@@ -467,6 +479,7 @@ def execute(plan: dict) -> dict:
 
 
 def _val(cell) -> str:
+    cell = [x for x in cell if x != 'nested']
     return ' + '.join(str(FIELDS[cell[j]][cell[j + 1]][0])[:60] for j in range(0, len(cell), 2))
 
 
